@@ -406,8 +406,12 @@ def split_first_line(text, style, context, max_width, justification_spacing,
         if first_line_text.endswith(soft_hyphen):
             # The first line has been split on a soft hyphen
             first_line_text, second_line_text = '', first_line_text
+            next_word = second_line_text
+        else:
+            # Only the first word of the second line can be hyphenated
+            next_word = re.split('[ \t\n]', second_line_text, maxsplit=1)[0]
         soft_hyphen_indexes = [
-            match.start() for match in re.finditer(soft_hyphen, second_line_text)]
+            match.start() for match in re.finditer(soft_hyphen, next_word)]
         soft_hyphen_indexes.reverse()
         dictionary_iterations = [second_line_text[:i+1] for i in soft_hyphen_indexes]
         start_word = 0
